@@ -5,11 +5,11 @@ from vf.runner import Inst
 PROPERTY = 'C28'
 LEVEL = 'model_checking'
 BOUNDS = {'quick': dict(groups='QR(7), QR(11), Schnorr(p=7,q=3), Schnorr(p=11,q=5), Schnorr(p=13,q=3)', ops='@ and if_else (element values symbolic), also with plain operands; ~ == != for p = 7 (values forked); repeat / ^ with public exponents 0,1,2,5,p-1,-1,-3 for QR(7), QR(11), Schnorr(11,5)', parties='m=1'),
-          'thorough': dict(groups='as quick plus QR(23) for @, if_else', ops='~ == != for all listed groups; repeat with secret base and secret exponent (SecInt(3), 0..3) for QR(7)')}
-OUTSIDE = ['repeat with public bases and secret exponents (per-party exponent shares, m > 1; harness h_m3 kept, not registered); secret exponents beyond 2 bits', 'party configurations m>1 (input/output of secure group elements)', 'elliptic curves, hyperelliptic curves, class groups, symmetric groups (secure versions)', 'groups over primes > 13 for ~ and == (masked reciprocal / Fermat power, see C04)',
+          'thorough': dict(groups='as quick plus QR(23) for @, if_else', ops='~ == != for all listed groups')}
+OUTSIDE = ['repeat with public bases and secret exponents (per-party exponent shares, m > 1; harness h_m3 kept, not registered); repeat with secret exponents (the exploration of the bit-wise exponentiation did not finish within 1500 s; harness code kept, not registered)', 'party configurations m>1 (input/output of secure group elements)', 'elliptic curves, hyperelliptic curves, class groups, symmetric groups (secure versions)', 'groups over primes > 13 for ~ and == (masked reciprocal / Fermat power, see C04)',
            'decode', 'conversion from plain elements beyond construction secgrp(g)']
 ASSUMPTIONS = ['secure field arithmetic (C04)', 'random_bits ideal', 'reciprocal mask non-zero on the explored path']
-LEVEL_TEXT = ('Bounded and partial: for small prime-order subgroups of GF(p)*, secure operation / inversion / equality / selection results equal the plain group results for all element values at m=1. Exponentiation is covered for public exponents (and one small secret-exponent case in the thorough tier); multi-party runs are NOT covered.')
+LEVEL_TEXT = ('Bounded and partial: for small prime-order subgroups of GF(p)*, secure operation / inversion / equality / selection results equal the plain group results for all element values at m=1. Exponentiation is covered for public exponents only; multi-party runs are NOT covered.')
 LEVEL_NOTE = 'Trusted: z3, shadow-int engine. Most group families are outside the claim (listed).'
 
 
@@ -164,9 +164,7 @@ def instances(tier):
         out.append(Inst(f'repeat_public_exp[{gn},n>=0]', h_m1, dict(group=g, what='repeat_public_exp', exponents=[0, 1, 2, 5, g[1] - 1]), **T))
         out.append(Inst(f'repeat_public_exp[{gn},n=-1]', h_m1, dict(group=g, what='repeat_public_exp', exponents=[-1]), **T))
         out.append(Inst(f'repeat_public_exp[{gn},^-3]', h_m1, dict(group=g, what='repeat_public_exp', exponents=[-3], via='xor'), **T))
-    if not q:
-        out.append(Inst('repeat_secret_base_secret_exponent[qr(7,),SecInt(3) exponent in 0..3]', h_m1, dict(group=['qr', 7], what='repeat_secret'), **T))
-    # the three-party public-base harness h_m3 are not registered: the explorations do not finish within
+    # repeat with a secret exponent (bit decomposition of the exponent, one mask fork per bit and value) did not finish within 1500 s; the three-party public-base harness h_m3 are not registered: the explorations do not finish within
     # the budget, and transfer() pickles group elements whose classes live in the simulator's private module copies
     out.append(Inst('twin_absorbing', h_twin, {}, twin=True, expect='violated', timeout=600))
     return out
